@@ -292,7 +292,10 @@ static void compare_nodes (char *name1, double id1, char *name2, double id2)
     char path1[1024], path2[1024];
     double cid1, cid2;
 
-    compare_data (name1, id1, name2, id2);
+    /* the root nodes carry format specific labels ("Root Node of ADF File",
+       "Root Node of HDF5 File"): nothing of the user's to compare there */
+    if (strcmp (name1, "/") || strcmp (name2, "/"))
+        compare_data (name1, id1, name2, id2);
     if (!recurse) return;
     if (!follow_links) {
         if (cgio_is_link (cgio1, id1, &nret))
